@@ -21,7 +21,7 @@ PROPERTY_MODULES = {
     "C02": ["core_gfi", "combinators", "lemmas", "pjax_vmap", "extra2", "fn_whole"],
     "C03": ["core_gfi", "combinators", "lemmas", "choicemap", "extra2", "fn_whole"],
     "C04": ["core_gfi", "combinators", "selection", "extra2", "fn_whole"],
-    "C05": ["core_gfi", "combinators", "lemmas", "mcmc", "extra", "choicemap", "extra2", "fn_whole", "selection"],
+    "C05": ["core_gfi", "combinators", "lemmas", "mcmc", "extra", "choicemap", "extra2", "fn_whole", "selection", "smc"],
 }
 
 A_REAL = "A-REAL: machine floats are treated as mathematical reals and ints as mathematical ints (no rounding, overflow, nan/inf)"
